@@ -36,6 +36,7 @@ class Device:
         self.probes = []  # (t, conn_id) of every version probe seen
         self.answers = []  # (t_probe, t_answer, conn_id)
         self.write_hook = None  # fn(conn, data) before a write is logged (fault injection)
+        self.slow_send = False  # TCP: sendall() takes a moment (send buffer nearly full)
         self.partial = {}
         self.dropped_inject = 0
         self.markers = []  # (wseq position, text) harness markers interleaved with writes
@@ -274,6 +275,14 @@ class FakeSocket(_Conn):
             raise OSError(9, "Bad file descriptor")
         if self.reset:
             raise BrokenPipeError(32, "Broken pipe")
+        if self.device.slow_send and len(data) > 1 and self.write_exc is None:
+            # a nearly full send buffer: sendall() pushes part of the data, waits, pushes the rest.  Whoever
+            # closes the socket in between leaves a truncated command on the wire.
+            self.sim.count("slow_sendall")
+            self.sim.sleep(0.001)
+            if not self.is_open:
+                self.device.record_write(self, bytes(data[: len(data) // 2]))
+                raise OSError(9, "Bad file descriptor")
         self._do_write(data)
 
     send = sendall
